@@ -75,7 +75,7 @@ def input_nodes(tt, assign):
     for k in R3.keys_of(tt):
         c = R8.category(k)
         # every second node is an instance of a user SUBCLASS of the node class; hint texts may be empty
-        odd = (int(k) // 2) % 2 == 1
+        odd = (int(k) % 3 == 0) if c == "hint" else (int(k) % 2 == 1 and int(k) > 100)  # mixes both among the first keys of the pools
         if c == "rc":
             nodes[k] = (I.UserRequirementConstraint if odd else I.RequirementConstraint)(condition_key=k, conditions_fulfilled=I.STATE[assign[k]])
         elif c == "hint":
